@@ -1,0 +1,13 @@
+//go:build verif
+
+// Contracts for package appctl (comment-only; read by /verif/govc).
+
+package appctl
+
+//@
+//@ // Malformed share links are rejected with an error, never with a panic: the
+//@ // contract carries only the safety obligations (slice bounds, nil, explicit panics).
+//@ func URLToClientConfig(s string) (c *pb.ClientConfig, err error)
+//@   property C20
+//@   mode int
+//@   ensures err == nil ==> c != nil
